@@ -46,7 +46,7 @@ class C01(Prop):
             yield {
                 "stream": "random",
                 "f": "mean",
-                "level": "1/2",
+                "level": rng.choice(["1/2", "1/2", "1/4", "4/5", "1/8"]),  # documented: neglected for the mean
                 "inc": rng.random() < 0.5,
                 "y": ic.gen_y(rng, n),
                 "w": ic.gen_w(rng, n),
@@ -109,7 +109,7 @@ class C01(Prop):
         return ic.iso_request(case)
 
     def compare(self, case, io, mo):
-        return ic.compare_xr(io, mo, exact=case["stream"] == "exact", with_r=False)  # r is C12's business
+        return ic.compare_xr(io, mo, exact=case["stream"] == "exact", with_r=False, scale=ic.data_scale(case))  # r is C12's business
 
     def oracle(self, case, io):
         if "err" in io:
